@@ -2,6 +2,7 @@ import FuModel.Find.Expr
 import FuModel.Find.Walk
 import FuModel.Base.Path
 import FuModel.Find.Numeric
+import FuModel.Find.PrintfFmt
 
 /-!
 # A whole run of find: starting points, configuration, walk, evaluation (`do_find`)
@@ -52,6 +53,7 @@ inductive Prim where
   | lname (lit : Bytes)
   | pathOut (pre : Bytes) (term : Bytes) -- writes pre ++ path ++ term  (-print, -print0, -printf 'pre%pterm')
   | lit (b : Bytes)                      -- -printf with literal text only
+  | printf (comps : List FuModel.Find.Printf.Comp) (raw : List Char)   -- -printf: the parsed format (and its text)
   | prune | quit
   | delete
   -- `-exec cmd args ;` / `-execdir …` (dir = true); `cmdOk = false`: the command cannot be started
@@ -63,6 +65,7 @@ inductive Prim where
 def Prim.isAction : Prim → Bool
   | .pathOut _ _ => true
   | .lit _ => true
+  | .printf _ _ => true
   | .exec _ _ _ _ => true
   | .execMulti _ _ _ _ _ => true
   | .delete => true
@@ -136,10 +139,80 @@ def permMatch (k : PermKind) (pattern value : Nat) : Bool :=
 def Rec.field (r : Rec) : StatField → Nat
   | .links => r.nlink | .inum => r.ino | .uid => r.uid | .gid => r.gid
 
+/-- `WalkEntry::file_name`: below a starting point the entry's name; for a starting point the last
+    component (explicit entries: `components().next_back()`; walkdir entries: `Path::file_name`),
+    or the whole path if there is none -/
 def fileName (start : Bytes) (v : Visit Attr) : Bytes :=
   match v.ent.rpath with
-  | [] => rootBase start
+  | [] =>
+    if v.explicit then (FuModel.Path.lastComponent start).getD start
+    else (FuModel.Path.fileName start).getD start
   | n :: _ => n
+
+/-! ### -printf rendering -/
+
+namespace Printf'
+open FuModel.Find.Printf
+
+
+
+def natDigits (n : Nat) : List Char := (toString n).toList
+
+def octDigits (n : Nat) : List Char := (Nat.toDigits 8 n)
+
+def utf8 (cs : List Char) : Bytes := (String.ofList cs).toUTF8.toList
+
+def typeLetterOut (c : Char) : Char := if c == 'f' || c == 'd' || c == 'b' || c == 'c' || c == 'p' || c == 's' || c == 'l' then c else 'U'
+
+/-- the value of one directive; `none` = the directive fails (the rest of the format is not printed) -/
+def value (start : Bytes) (v : Visit Attr) (d : Dir) : Option Bytes :=
+  let path := pathOf start v.ent.rpath
+  let a := attrOf v
+  let rec' := (metaOf v).map (·.2)
+  match d with
+  | .p => some path
+  | .P => some (List.intercalate [47] v.ent.rpath.reverse)
+  | .f => some (fileName start v)
+  | .h => some (match FuModel.Path.parent path with
+      | none => []
+      | some p => if p == [47] then [] else if p.isEmpty then [46] else p)
+  | .H => FuModel.Path.ancestor v.ent.depth path
+  | .d => some (utf8 (natDigits v.ent.depth))
+  | .s => rec'.map fun r => utf8 (natDigits r.size)
+  | .n => rec'.map fun r => utf8 (natDigits r.nlink)
+  | .i => rec'.map fun r => utf8 (natDigits r.ino)
+  | .U => rec'.map fun r => utf8 (natDigits r.uid)
+  | .G => rec'.map fun r => utf8 (natDigits r.gid)
+  | .m => rec'.map fun r =>
+      let ds := octDigits r.perm
+      utf8 (List.replicate (3 - ds.length) '0' ++ ds)
+  | .y => some (utf8 [typeLetterOut (fileType v)])
+  | .Y => some (utf8 [if a.lty == 'l' then (if a.sty == 'N' then 'N' else if a.sty == 'L' then 'L' else typeLetterOut a.sty)
+                       else typeLetterOut (fileType v)])
+  | .l => some (if a.lty == 'l' then a.target else [])
+
+/-- number of characters of a UTF-8 byte string (continuation bytes do not count) -/
+def charCount (b : Bytes) : Nat := (b.filter fun x => x.toNat / 64 != 2).length
+
+def pad (width : Option Nat) (left : Bool) (val : Bytes) : Bytes :=
+  match width with
+  | none => val
+  | some w =>
+    let fill := List.replicate (w - charCount val) (32 : UInt8)
+    if left then val ++ fill else fill ++ val
+
+/-- `Printf::print`: components in order; a failing directive stops the rest -/
+def render (start : Bytes) (v : Visit Attr) : List Comp → Bytes
+  | [] => []
+  | .lit t :: r => utf8 t ++ render start v r
+  | .flush :: r => render start v r
+  | .dir d w l :: r =>
+    (match value start v d with
+     | some val => pad w l val ++ render start v r
+     | none => [])
+  | .other _ _ _ :: _ => []
+
+end Printf'
 
 /-! ### -exec -/
 
@@ -166,6 +239,7 @@ structure GS where
   panicked : Bool := false
   deleted : List Bytes := []              -- paths removed so far by -delete, in order
   mdiags : Nat := 0                       -- diagnostics of actions (failed removals …)
+  unspec : Bool := false                  -- (reference runs only) the property leaves the output open
   deriving Repr
 
 /-- per-entry evaluation state (`MatcherIO` plus what is shared) -/
@@ -270,6 +344,7 @@ def sem (start : Bytes) (v : Visit Attr) (p : Prim) (s : ES) : Bool × ES :=
   | .lname l => (fileType v == 'l' && (attrOf v).target == l, s)
   | .pathOut pre term => (true, { s with gs := { s.gs with out := s.gs.out ++ pre ++ path ++ term } })
   | .lit b => (true, { s with gs := { s.gs with out := s.gs.out ++ b } })
+  | .printf comps _ => (true, { s with gs := { s.gs with out := s.gs.out ++ Printf'.render start v comps } })
   | .prune => (true, if fileType v == 'd' then { s with prune := true } else s)
   | .quit => (true, { s with quit := true })
   | .delete =>
